@@ -63,6 +63,7 @@ contract('PartHandler.notify_upstream_of_available_space', props=['C03'], for_cl
                       'all(trace_kind(old(trace_len()) + j) == fn_id("space_available_downstream") and '
                       '    trace_recv(old(trace_len()) + j) is self._upstream[j] for j in range(len(self._upstream)))',
                   'idle_stamp_started_unless_running': 'implies(self._env is not None, self._waiting_for_part_since is not None)',
+                  'cycle_time_stays_valid': 'self._cycle_time >= 0',
                   'slots_untouched': 'self._part is old(self._part) and self._output is old(self._output)'},
          modifies=['self._waiting_for_part_since', 'self._waiting_for_downstream_space', 'self._cycle_time',
                    'self._next_cycle_time_offset', '$trace'])
@@ -147,4 +148,50 @@ loop('PartHandler._on_received_new_part', 1, 'for c in self._received_part_callb
       'slots': 'self._part is at_loop_entry(self._part) and self._output is at_loop_entry(self._output) and self._part is not None',
       'cycle_time_valid': 'self._cycle_time >= 0',
       'stamp': 'self._waiting_for_part_since is None'},
+     modifies=['self._waiting_for_downstream_space', 'self._cycle_time', 'self._next_cycle_time_offset', '$trace'], index='k')
+
+# hand-over attempt of a single-slot holder.  g_taken: position (in the sorted candidate list) of the downstream that
+# took the part, -1 if none did.
+ghost_after('PartHandler._pass_part_downstream', '<entry>', g_taken='-1')
+ghost_after('PartHandler._pass_part_downstream', 'self._output = None', g_taken='k')
+PASS_ACTIVE = 'old(operational(self) and self._output is not None)'
+contract('PartHandler._pass_part_downstream', props=['C02', 'C03', 'C08'], for_cls=['PartHandler'], args={},
+         requires={'initialised': 'self._env is not None and alive(self._env)', 'clock_nonneg': 'self._env._now >= 0',
+                   'output_alive': 'self._output is None or alive(self._output)'},
+         ensures={
+             'C02,C13/nothing_to_pass_or_not_operational_changes_nothing':
+                 f'implies(not {PASS_ACTIVE}, self._output is old(self._output) and trace_len() == old(trace_len()) and '
+                 '        self._waiting_for_downstream_space == old(self._waiting_for_downstream_space))',
+             'C02/output_cleared_iff_a_downstream_took_it':
+                 f'implies({PASS_ACTIVE}, ite(g_taken >= 0, self._output is None, self._output is old(self._output)))',
+             'C02,C08/offered_in_order_only_the_last_offer_was_accepted':
+                 f'implies({PASS_ACTIVE}, '
+                 '  all(trace_kind(old(trace_len()) + j) == fn_id("give_part") and '
+                 '      trace_ref(old(trace_len()) + j, 0) is old(self._output) and '
+                 '      trace_resb(old(trace_len()) + j) == (j == g_taken) '
+                 '      for j in range(ite(g_taken >= 0, g_taken + 1, len(self._downstream)))))',
+             'C03/blocked_part_waits_for_space':
+                 f'implies({PASS_ACTIVE} and g_taken < 0, self._waiting_for_downstream_space and '
+                 '        trace_len() == old(trace_len()) + len(self._downstream))',
+             'C03/upstream_notified_after_hand_over':
+                 f'implies({PASS_ACTIVE} and g_taken >= 0, '
+                 '  trace_len() == old(trace_len()) + g_taken + 1 + len(self._upstream) and '
+                 '  all(trace_kind(old(trace_len()) + g_taken + 1 + j) == fn_id("space_available_downstream") and '
+                 '      trace_recv(old(trace_len()) + g_taken + 1 + j) is self._upstream[j] for j in range(len(self._upstream))))',
+             'C02/input_slot_untouched': 'self._part is old(self._part)',
+         })
+loop('PartHandler._pass_part_downstream', 1, 'for dwn in self.get_sorted_downstream_list()',
+     {'candidates_are_the_configured_downstreams':
+          'len(iterated()) == len(self._downstream) and '
+          'all(0 <= sorted_perm("", j) and sorted_perm("", j) < len(self._downstream) and '
+          '    iterated()[j] is self._downstream[sorted_perm("", j)] for j in range(len(iterated())))',
+      'all_refused_so_far':
+          'trace_len() == at_loop_entry(trace_len()) + k and '
+          'all(trace_kind(at_loop_entry(trace_len()) + j) == fn_id("give_part") and '
+          '    trace_recv(at_loop_entry(trace_len()) + j) is iterated()[j] and '
+          '    trace_ref(at_loop_entry(trace_len()) + j, 0) is self._output and '
+          '    not trace_resb(at_loop_entry(trace_len()) + j) for j in range(k))',
+      'slots': 'self._output is at_loop_entry(self._output) and self._output is not None and '
+               'self._part is at_loop_entry(self._part) and g_taken == -1',
+      'cycle_time_valid': 'self._cycle_time >= 0'},
      modifies=['self._waiting_for_downstream_space', 'self._cycle_time', 'self._next_cycle_time_offset', '$trace'], index='k')
